@@ -36,9 +36,10 @@ class Model(Wrapper):
     def __call__(self, x):
         if isinstance(x, dict):
             v = 0.25
+            num = lambda q: float(ord(q[0]) - 64) if isinstance(q, str) else float(q)   # string categories "A", "B", ...
             for j, n in enumerate(self.names):
-                v += (0.5 + 0.37 * j) * float(x[n])
-            v += 0.11 * float(x[self.names[0]]) * float(x[self.names[-1]])
+                v += (0.5 + 0.37 * j) * num(x[n])
+            v += 0.11 * num(x[self.names[0]]) * num(x[self.names[-1]])
             return {"output": v}
         return [self(r) for r in x]
 
@@ -68,6 +69,8 @@ def row(cfg, t):
     for j, n in enumerate(cfg["names"]):
         if n.startswith("c"):
             x[n] = 1 + H(cfg["stream"], "c", t, j) % 3
+            if cfg.get("str_cats"):          # string categories (legal where every feature is categorical)
+                x[n] = "ABCD"[(x[n] + (t // 25)) % 4]
         else:
             x[n] = round((H(cfg["stream"], "n", t, j) % 100003) / 100003.0 * (1 + j) + (3.0 if (t // 40) % 2 and j == 0 else 0.0), 6)
     y = round(float(H(cfg["stream"], "y", t) % 1000) / 100.0, 3)
@@ -255,6 +258,11 @@ def run_config(cfg, mode):
                 h.update(repr(canon_storage(storage)).encode())
             if vals:
                 h.update(repr(sorted((repr(k), float(v).hex()) for k, v in vals.items())).encode())
+                if ek in ("pfi", "sage"):
+                    # what is derived from the estimates is a result too
+                    for nmode in ("sum", "delta"):
+                        nv = e.get_normalized_importance_values(nmode)
+                        h.update(repr(sorted((repr(k), float(v).hex()) for k, v in nv.items())).encode())
             digests.append(h.hexdigest())
             if mode == "B":
                 if pr.random() < 0.5:
